@@ -92,6 +92,9 @@ pub fn gen_c01(tier: &str, seed: u64) -> Vec<Vec<String>> {
         let mut c = vec![format!("CASE flw C01 {k}")];
         let naming = *r.pick(&NAMINGS);
         let (spec, has_suffix) = gen_spec(&mut r, naming);
+        // a format coarser than a second (date only): many rotations per name period
+        let coarse = naming.starts_with("ts") && r.chance(1, 4);
+        let spec = if coarse { spec.rsplitn(2, ' ').nth(1).map(|s| format!("{s} 4")).unwrap() } else { spec };
         c.push(spec);
         let n: u64 = *r.pick(&[0, 1, 5, 16, 40, 64]);
         let (ms, age) = match r.below(4) {
@@ -99,6 +102,8 @@ pub fn gen_c01(tier: &str, seed: u64) -> Vec<Vec<String>> {
             2 => (None, Some(*r.pick(&['s', 'm', 'h', 'd']))),
             _ => (Some(n), Some(*r.pick(&['s', 'm', 'h', 'd']))),
         };
+        // (the documentation asks for an age that is not finer than the format)
+        let age = if coarse { age.map(|_| 'd') } else { age };
         let cap: Option<u64> = match r.below(5) {
             0 | 1 => None,
             2 => Some(*r.pick(&[1, 4, 8])),
@@ -363,7 +368,7 @@ fn gen_with(o: Opts, tier: &str, seed: u64, quick: u64, thorough: u64) -> Vec<Ve
 const ALL: &[&str] = &["num", "numd", "ts", "tsd"];
 
 pub fn gen_c08(tier: &str, seed: u64) -> Vec<Vec<String>> {
-    gen_with(Opts { prop: "C08", size: true, age: false, force_rot: false, restarts: 1, cleanup: false, faults: false, ext: false, modes: true, max_ops: 40, namings: ALL, foreign: false, exist: false, bg: 0 }, tier, seed, 500, 8000)
+    gen_with(Opts { prop: "C08", size: true, age: false, force_rot: true, restarts: 1, cleanup: false, faults: false, ext: false, modes: true, max_ops: 40, namings: ALL, foreign: false, exist: false, bg: 0 }, tier, seed, 500, 8000)
 }
 pub fn gen_c09(tier: &str, seed: u64) -> Vec<Vec<String>> {
     gen_with(Opts { prop: "C09", size: false, age: true, force_rot: false, restarts: 1, cleanup: false, faults: false, ext: false, modes: false, max_ops: 40, namings: ALL, foreign: false, exist: false, bg: 0 }, tier, seed, 500, 8000)
